@@ -126,7 +126,7 @@ def replay_one(sc, streams, order):
     out["agg"] = []
     if not out["raised"]:
         try:
-            out["agg"] = [int(v) for v in m.get_statistics().values()]
+            out["agg"] = problems.user_stats(m)
         except Exception as e:  # noqa: the aggregated statistics are part of the observable result
             out["agg"] = []
     return out
@@ -198,7 +198,7 @@ def real_run(sc, victim=-1, kill_before=-1, deadline=25.0, prior=0):
                 out["none"] = r is None
                 out["ret"] = [] if r is None else [int(v) for v in r]
             if victim < 0:
-                out["agg"] = [int(v) for v in m.get_statistics().values()]
+                out["agg"] = problems.user_stats(m)
                 out["finals"] = [[int(v) for v in s] for s in m.statistics]
             out["outcome"] = "returned"
         except BaseException as e:  # noqa
